@@ -142,6 +142,17 @@ Theorem RW_label_scan_intersection : forall (nodes : list node) (l : N) (ls : li
          (filter (fun n => memN l (n_labels n)) nodes).
 Proof. exact label_scan_intersection. Qed.
 
+(* RW_anchor_choice, per segment: expanding a (fixed or variable-length) segment from its far
+   end, against the direction, finds exactly the same trails, reversed - so which pattern node
+   the planner anchors on does not change the set of matches of the segment *)
+Theorem RW_anchor_choice : forall g rp u used rs w,
+  Trail g rp u used rs w <-> Trail g (flip_rp rp) w used (rev rs) u.
+Proof. exact trail_rev. Qed.
+
+Theorem RW_expand_reverse : forall g rp u v r,
+  In (r, v) (hops g rp u) <-> In (r, u) (hops g (flip_rp rp) v).
+Proof. exact hops_flip. Qed.
+
 (* what is claimed for C01: the conjunction of the laws above (see the individual theorems) *)
 Theorem C01_partial :
   (forall iso g ps r used a r' used',
@@ -292,4 +303,6 @@ Print Assumptions RW_topn.
 Print Assumptions RW_limit_pushdown.
 Print Assumptions RW_limit_over_filter.
 Print Assumptions RW_label_scan_intersection.
+Print Assumptions RW_anchor_choice.
+Print Assumptions RW_expand_reverse.
 Print Assumptions C01_partial.
